@@ -36,7 +36,7 @@ pub struct TdCase {
 }
 
 fn epoch_fields(full: u64) -> (u64, u64, u64) {
-    let e = EpochNumberWithFraction::from_full_value(full);
+    let e = EpochNumberWithFraction::from_full_value_unchecked(full);
     (e.number(), e.index(), e.length())
 }
 
@@ -130,8 +130,8 @@ pub fn model_class(ans: &str) -> String {
 }
 
 pub fn call_td(c: &TdCase) -> Result<Result<(), String>, String> {
-    let se = EpochNumberWithFraction::from_full_value(c.start_epoch);
-    let ee = EpochNumberWithFraction::from_full_value(c.end_epoch);
+    let se = EpochNumberWithFraction::from_full_value_unchecked(c.start_epoch);
+    let ee = EpochNumberWithFraction::from_full_value_unchecked(c.end_epoch);
     catch(|| {
         verify_total_difficulty(
             se,
@@ -146,8 +146,8 @@ pub fn call_td(c: &TdCase) -> Result<Result<(), String>, String> {
 }
 
 pub fn call_tau(c: &TdCase) -> String {
-    let se = EpochNumberWithFraction::from_full_value(c.start_epoch);
-    let ee = EpochNumberWithFraction::from_full_value(c.end_epoch);
+    let se = EpochNumberWithFraction::from_full_value_unchecked(c.start_epoch);
+    let ee = EpochNumberWithFraction::from_full_value_unchecked(c.end_epoch);
     match catch(|| verify_tau(se, c.start_compact, ee, c.end_compact, c.tau)) {
         Ok(Ok(true)) => "pass".into(),
         Ok(Ok(false)) => "fail".into(),
@@ -679,7 +679,7 @@ pub fn replay_lines(c: &TdCase, observed: &str, model: &str) -> Vec<String> {
         format!("# implementation: {}", observed),
         format!("# model: {}", model),
         format!(
-            "# rust: verify_total_difficulty(EpochNumberWithFraction::from_full_value({:#x}), {:#x}, &U256({}), from_full_value({:#x}), {:#x}, &U256({}), {})",
+            "# rust: verify_total_difficulty(EpochNumberWithFraction::from_full_value_unchecked({:#x}), {:#x}, &U256({}), from_full_value({:#x}), {:#x}, &U256({}), {})",
             c.start_epoch, c.start_compact, dec(&c.start_total), c.end_epoch, c.end_compact, dec(&c.end_total), c.tau
         ),
     ]
